@@ -39,6 +39,12 @@ structure Tz where
 /-- `last_update` argument: `none` = Python `None`; `some none` = naive datetime; `some (some tz)` = aware. -/
 abbrev Stamp := Option (Option Tz)
 
+/-- A Python value offered to / stored in a typed slot, as far as `trivial_cast` distinguishes values
+    (`str hasCtl`: the string contains CR, LF or TAB). -/
+inductive PyVal where
+  | int (n : Int) | bool (b : Bool) | float | str (hasCtl : Bool) | bytes | date | datetime | other
+  deriving DecidableEq, Repr
+
 instance : DecidableEq (Res Unit) := fun a b =>
   match a, b with
   | .ok _, .ok _ => isTrue rfl
